@@ -292,4 +292,20 @@ theorem dct4_odd (Q : ℕ) (hQ : 0 < Q) (u : ℕ → ℝ) (p k : ℕ) (hk : k + 
   rw [c4_even_odd Q i p k hQ hk, c4_odd_odd Q i p (2 * Q - 1 - 2 * i) k hQ (by omega) hk]
   ring
 
+/-- `dftRe` / `dftIm` are the real and imaginary parts of the complex DFT `F_k = Σ_j c_j·exp(−2πi·jk/n)`,
+    `c_j = re_j + i·im_j` — the transform `opus_fft` is defined to compute (celt/kiss_fft.c, unscaled). -/
+theorem dft_complex (n : ℕ) (re im : ℕ → ℝ) (k : ℕ) :
+    ((dftRe n re im k : ℂ) + (dftIm n re im k : ℂ) * Complex.I)
+      = ∑ j ∈ range n, ((re j : ℂ) + (im j : ℂ) * Complex.I)
+          * Complex.exp (-(2 * π * ((j * k : ℕ) : ℝ) / n : ℝ) * Complex.I) := by
+  unfold dftRe dftIm
+  push_cast
+  rw [Finset.sum_mul, ← Finset.sum_add_distrib]
+  refine sum_congr rfl fun j _ => ?_
+  rw [Complex.exp_mul_I]
+  simp only [Complex.cos_neg, Complex.sin_neg]
+  ring_nf
+  rw [Complex.I_sq]
+  ring
+
 end Opus.MdctR
